@@ -13,7 +13,9 @@ import (
 	"net"
 	"os"
 	"path/filepath"
+	"strconv"
 	"strings"
+	"sync/atomic"
 	"time"
 
 	"github.com/glowlabs-org/gca-backend/client"
@@ -167,7 +169,7 @@ var witnesses = []witness{
 		e.Stop()
 		return ok, fmt.Sprintf("status=%v err=%v", st, err)
 	}},
-	{"F5", []string{"C03"}, "GET of an archived week with insert_false_negatives=true must not change the archive", func() (bool, string) {
+	{"F5", []string{"C03", "C13"}, "GET of an archived week with insert_false_negatives=true must not change the archive", func() (bool, string) {
 		e := mustEnv("f5")
 		d := detKey(7, 1)
 		e.mustAuth(mkAuth(1, d, 1e12))
@@ -381,6 +383,62 @@ var witnesses = []witness{
 		e.Stop()
 		return err == nil, fmt.Sprintf("migrate status=%d restart err=%v", st, err)
 	}},
+}
+
+func init() {
+	witnesses = append(witnesses,
+		witness{"F17", []string{"C09"}, "open finding: two rows for one timeslot whose values agree modulo 2^32 are both signed and sent (mod32-equivocation)", func() (bool, string) {
+			dev := detKey(7, 1)
+			sink := newUDPSink()
+			defer sink.c.Close()
+			servers := map[glow.PublicKey]client.GCAServer{detKey(7, 60).Pub: {Location: "127.0.0.1", HttpPort: 1, TcpPort: closedPort(), UdpPort: sink.port()}}
+			dir := freshDir("f17")
+			defer os.RemoveAll(dir)
+			hdr := "timestamp,energy (mWh)\n"
+			if err := writeClientDir(ClientDir{Dir: dir, Key: dev, GCAPub: detKey(7, 1001).Pub, ShortID: 1, Servers: servers, Energy: &hdr}); err != nil {
+				return false, err.Error()
+			}
+			os.WriteFile(filepath.Join(dir, client.LastSyncFile), []byte(strconv.FormatInt(time.Now().Unix(), 10)), 0644)
+			c, err := client.NewClient(dir)
+			if err != nil {
+				return false, err.Error()
+			}
+			defer c.Close()
+			g := int64(glow.GenesisTime)
+			os.WriteFile(filepath.Join(dir, client.EnergyFile), []byte(fmt.Sprintf("%s%d,500\n%d,4294967796\n", hdr, g+300*7, g+300*7+5)), 0644)
+			it0 := atomic.LoadInt64(&loopIters)
+			for w := 0; w < 3000 && atomic.LoadInt64(&loopIters) < it0+2; w++ {
+				time.Sleep(time.Millisecond)
+			}
+			sink.settle(10*time.Millisecond, 300*time.Millisecond)
+			vals := map[uint64]bool{}
+			for _, p := range sink.take() {
+				if r, err := glow.DeserializeReport(p); err == nil && r.Timeslot == 7 {
+					vals[r.PowerOutput] = true
+				}
+			}
+			return len(vals) <= 1, fmt.Sprintf("distinct values signed for slot 7: %d", len(vals))
+		}},
+		witness{"F19", []string{"C10"}, "open finding: a server list whose sync reply exceeds 65535 bytes cannot be framed by the 16-bit length prefix (reply-over-65535)", func() (bool, string) {
+			e := mustEnv("f19")
+			defer e.Stop()
+			d := detKey(7, 1)
+			e.mustAuth(mkAuth(1, d, 1e12))
+			for i := 0; i < 190; i++ {
+				as := server.AuthorizedServer{PublicKey: detKey(7, 2000+i).Pub, Banned: true, Location: strings.Repeat("x", 255), HttpPort: 1, TcpPort: 1, UdpPort: 1}
+				as.GCAAuthorization = glow.Sign(as.SigningBytes(), e.GCA.Priv)
+				if st, _, err := e.PostJSON("/api/v1/authorized-servers", as); err != nil || st != 200 {
+					return false, fmt.Sprintf("post %d: %v %v", i, st, err)
+				}
+			}
+			raw, err := e.SyncRaw(1)
+			if err != nil || len(raw) < 2 {
+				return false, fmt.Sprintf("sync: %v", err)
+			}
+			prefix := int(binary.LittleEndian.Uint16(raw[:2]))
+			return prefix == len(raw)-2, fmt.Sprintf("reply bytes=%d length prefix=%d", len(raw)-2, prefix)
+		}},
+	)
 }
 
 func runWitness(id string) int {
